@@ -191,6 +191,8 @@ Lemma apply_change_inv : forall c s cs,
 Proof.
   intros c s cs. unfold apply_change.
   destruct (c_type c); [|left; eauto].
+  destruct (existsb (fun ka : key * act gval => match snd ka with Put g => is_bad g | Del => false end) cs);
+    [left; eauto|].
   destruct (start c s) as [[m0|l|]|]; [|left; eauto| |left; eauto].
   2:{ destruct (existsb _ cs); [left; eauto|right; left; reflexivity]. }
   destruct (change_loop cs m0) as [m1 rev] eqn:L.
@@ -219,7 +221,7 @@ Lemma fire_step : forall c s e,
   | None => o_state (fire c s e) = s
   end.
 Proof.
-  intros c s e. destruct e as [cs|v i|i|d|]; cbn [fire].
+  intros c s e. destruct e as [cs|v i|i|d| |]; cbn [fire]; [| | | |reflexivity|].
   - (* change *)
     destruct (c_type c) eqn:T; [|reflexivity].
     destruct cs as [|c0 cs0]; [reflexivity|]. cbn [is_nil]. set (cs := c0 :: cs0).
@@ -235,6 +237,7 @@ Proof.
     destruct (c_type c) eqn:T; [reflexivity|].
     destruct (i <? 0)%Z; [reflexivity|].
     unfold apply_add. rewrite T.
+    destruct (is_bad v); [reflexivity|].
     destruct (start c s) as [[m|l|]|] eqn:ST; cbn.
     + reflexivity.
     + destruct (len l <? Z.to_N i) eqn:B; cbn; [reflexivity|].
@@ -303,8 +306,11 @@ Proof.
     + cbn [app]. rewrite F in *. apply IH; assumption.
 Qed.
 
-Lemma get_is_start : forall c s, get_resource c s = gres_of (start c s).
-Proof. intros c s. unfold get_resource, start. destruct (st_val s); [reflexivity|]. destruct (c_def c); reflexivity. Qed.
+Lemma get_is_start : forall c s, maps c = None -> get_resource c s = gres_of (start c s).
+Proof.
+  intros c s M. unfold get_resource, start. rewrite M.
+  destruct (st_val s); [reflexivity|]. destruct (c_def c); reflexivity.
+Qed.
 
 Lemma gres_of_eqv : forall a b, veqv a b -> geqv (gres_of a) (gres_of b).
 Proof. intros [x|] [y|]; cbn; auto. Qed.
@@ -422,7 +428,7 @@ Lemma fire_fits : forall c s e,
   ofits c (c_def c) = true -> ofits c (st_val s) = true -> ev_fits c e = true ->
   ofits c (st_val (o_state (fire c s e))) = true.
 Proof.
-  intros c s e D V E. destruct e as [cs|v i|i|d|]; cbn [fire].
+  intros c s e D V E. destruct e as [cs|v i|i|d| |]; cbn [fire]; [| | | |exact V|].
   - destruct (c_type c) eqn:T; [|exact V].
     destruct cs as [|c0 cs0]; [exact V|]. cbn [is_nil]. set (cs := c0 :: cs0) in *.
     destruct (apply_change_inv c s cs) as [[s' [H E']]|[H|[m0 [m1 [rev [_ [ST [L [[R H]|[R [ix H]]]]]]]]]]]; rewrite H.
@@ -435,6 +441,7 @@ Proof.
   - destruct (c_type c) eqn:T; [exact V|].
     destruct (i <? 0)%Z; [exact V|].
     unfold apply_add. rewrite T.
+    destruct (is_bad v); [exact V|].
     destruct (start c s) as [[m|l|]|] eqn:ST; cbn.
     + exact V.
     + destruct (len l <? Z.to_N i); cbn; [exact V|].
@@ -510,9 +517,10 @@ Proof.
   - rewrite dec_list_any. cbn. congruence.
 Qed.
 
-Lemma value_is_get : forall c s, ofits c (st_val s) = true -> value_resource c s = get_resource c s.
+Lemma value_is_get : forall c s,
+  maps c = None -> ofits c (st_val s) = true -> value_resource c s = get_resource c s.
 Proof.
-  intros c s H. unfold value_resource, get_resource. destruct (st_val s) as [r|]; [|reflexivity].
+  intros c s M H. unfold value_resource, get_resource. rewrite M. destruct (st_val s) as [r|]; [|reflexivity].
   cbn in H. rewrite (fits_decode _ _ H). reflexivity.
 Qed.
 
@@ -521,24 +529,41 @@ Qed.
 Lemma served_is_fold_pf : forall c s es,
   exists v,
     spec_fold (c_def c) (published c s es) (served (c_def c) (st_val s)) = Some v /\
-    geqv (get_resource c (final c s es)) (gres_of v) /\
+    veqv (served (c_def c) (st_val (final c s es))) v /\
+    (maps c = None -> geqv (get_resource c (final c s es)) (gres_of v)) /\
     get_resource c (reopen (final c s es)) = get_resource c (final c s es) /\
     value_resource c (reopen (final c s es)) = value_resource c (final c s es).
 Proof.
   intros c s es.
   destruct (fold_general c es s (start c s) (veqv_refl _)) as [v [SF EQ]].
-  exists v. rewrite served_start. split; [exact SF|].
-  split; [|split; reflexivity]. rewrite get_is_start. apply gres_of_eqv. exact EQ.
+  exists v. rewrite !served_start. split; [exact SF|]. split; [exact EQ|].
+  split; [|split; reflexivity]. intros M. rewrite (get_is_start _ _ M). apply gres_of_eqv. exact EQ.
 Qed.
 
 (* Value(), when the stored content decodes into the handler's Type *)
 Lemma value_is_fold_pf : forall c s es,
-  well_typed c s es = true ->
+  maps c = None -> well_typed c s es = true ->
   value_resource c (final c s es) = get_resource c (final c s es).
 Proof.
-  intros c s es W. unfold well_typed in W.
+  intros c s es M W. unfold well_typed in W.
   apply andb_true_iff in W. destruct W as [W E]. apply andb_true_iff in W. destruct W as [D V].
-  apply value_is_get. apply typed_final; assumption.
+  apply value_is_get; [exact M|]. apply typed_final; assumption.
+Qed.
+
+(* with a Map callback get serves Map(the stored entry unmarshalled into Type); the Default is not mapped *)
+Lemma mapped_get_pf : forall c s f,
+  maps c = Some f ->
+  get_resource c s =
+    match st_val s with
+    | Some r => match decode c r with
+                | Some r' => match f r' with Some x => GOk x | None => GErr end
+                | None => GErr
+                end
+    | None => gres_of (c_def c)
+    end.
+Proof.
+  intros c s f M. unfold get_resource. rewrite M. destruct (st_val s); [reflexivity|].
+  destruct (c_def c); reflexivity.
 Qed.
 
 (* every event that publishes nothing leaves the database unchanged *)
@@ -654,14 +679,15 @@ Qed.
 Lemma unappliable_silent_pf : forall c s e,
   unappliable (served (c_def c) (st_val s)) e = true -> fire c s e = silent true s.
 Proof.
-  intros c s e. rewrite served_start. destruct e as [cs|v i|i|d|]; cbn [unappliable fire].
+  intros c s e. rewrite served_start. destruct e as [cs|v i|i|d| |]; cbn [unappliable fire]; [| | | |reflexivity|].
   - intros H. apply andb_true_iff in H. destruct H as [H1 H2].
     destruct (c_type c) eqn:T; [|reflexivity].
     destruct (is_nil cs); [discriminate|].
-    unfold apply_change. rewrite T. destruct (start c s); [discriminate|reflexivity].
+    unfold apply_change. rewrite T. destruct (existsb _ cs); [reflexivity|].
+    destruct (start c s); [discriminate|reflexivity].
   - intros H. destruct (c_type c) eqn:T; [reflexivity|].
     destruct (i <? 0)%Z; [reflexivity|]. cbn [orb] in H.
-    unfold apply_add. rewrite T.
+    unfold apply_add. rewrite T. destruct (is_bad v); [reflexivity|].
     destruct (start c s) as [[m|l|]|]; try discriminate.
     + rewrite H. reflexivity.
     + cbn [len length N.of_nat]. rewrite H. reflexivity.
@@ -846,9 +872,11 @@ Lemma fire_idx_ok : forall c ks s e,
 Proof.
   intros c ks s e P T IX D TA NE OK.
   assert (idxs c = Some ks) as IXS by (unfold idxs; rewrite P, T; exact IX).
-  destruct e as [cs|v i|i|d|]; cbn [fire]; rewrite ?T; try exact OK.
+  destruct e as [cs|v i|i|d| |]; cbn [fire]; rewrite ?T; try exact OK.
   - destruct cs as [|c0 cs0]; [exact OK|]. cbn [is_nil]. set (cs := c0 :: cs0) in *.
     unfold apply_change, start. rewrite T, D, IXS.
+    destruct (existsb (fun ka : key * act gval => match snd ka with Put g => is_bad g | Del => false end) cs);
+      [exact OK|].
     destruct (st_val s) as [[m0|l|]|] eqn:V; try exact OK.
     2:{ destruct (existsb _ cs); exact OK. }
     destruct (change_loop cs m0) as [m1 rev] eqn:L.
